@@ -1357,6 +1357,7 @@ fn run_input(input: &str, drv: &mut Driver, rep: &mut Report, shrink_budget: &mu
             let b = Book::parse(&p);
             book_case(b, drv, rep, shrink_budget);
         }
+        "O" => overlap_case(p[1].parse().unwrap(), input, drv, rep),
         "B" => {
             let b = big_sst_book(p[1].parse().unwrap());
             rep.count("file.big_sst");
@@ -1393,6 +1394,119 @@ fn big_sst_book(seed: u64) -> Book {
         cells.push(mk(1 + j as u16, 1, 65536 + j, &sst));
     }
     Book { env: EnvD { fmts: vec!['o'], is1904: false, sst }, sheets: vec![cells], seed }
+}
+
+/// the overlapping-offsets family `O <seed>`: k BoundSheet8 records whose offsets point at record boundaries inside ONE
+/// worksheet substream (and inside the globals, at the end of the stream, beyond it), so that the sheets overlap. The
+/// reader scans each sheet from its offset to the EOF record and keeps a workbook-wide byte counter (fix edc415f): the
+/// outcome must be the ranges of all sheets, or `EoStream("overlapping sheet substreams")` once the counter passes
+/// 8·len + 65536 — the same in the implementation and in the model (`workbookSheets`). Rebuilt from the seed.
+fn overlap_case(seed: u64, input: &str, drv: &mut Driver, rep: &mut Report) {
+    let mut rng = Rng::new(seed ^ 0x0E7A_11);
+    // one case in three sits on the limit itself: every sheet points at the real start, and the padding behind the
+    // sheet is chosen so that the total lands within 8 bytes of the limit, on either side
+    let boundary = rng.chance(1, 3);
+    let nrec = if boundary { *rng.pick(&[20usize, 60, 300, 1500]) } else { *rng.pick(&[3usize, 20, 60, 300, 1500]) };
+    let mut k = *rng.pick(&[1usize, 2, 5, 9, 12, 20, 40, 100, 1000, 3000]);
+    // the worksheet: BOF, nrec cell records in one column (rows ascending), EOF; remember every record boundary
+    let mut sheet = xlsw::bof(0x0010);
+    let mut bounds = vec![0usize];
+    for i in 0..nrec {
+        bounds.push(sheet.len());
+        let c = match rng.below(4) {
+            0 => XlsCell::new(i as u16, 0, CellV::Rk(xlsw::rk_int(i as i32 - 7, rng.chance(1, 2)))),
+            1 => XlsCell::new(i as u16, 0, CellV::Bool(i % 2 == 0)),
+            _ => XlsCell::new(i as u16, 0, CellV::Number(i as f64 / 4.0)),
+        };
+        sheet.extend(xlsw::frame(&xlsw::encode_cell(&c, &mut rng)));
+    }
+    if boundary {
+        // an ignorable record pads the substream to a multiple of 8 bytes, so that the total can EQUAL the limit
+        let p = (8 - (sheet.len() + 8) % 8) % 8;
+        sheet.extend(xlsw::rec(0x1234, &vec![0u8; p]));
+    }
+    bounds.push(sheet.len()); // the EOF record itself
+    sheet.extend(xlsw::rec(xlsw::EOF, &[]));
+    if boundary {
+        let l = sheet.len();
+        k = (8 * (50 + l) + 65536) / (l - 8 * 17) + 3;
+    }
+    // globals with k BOUNDSHEET8 records (offsets patched below)
+    let mut g = xlsw::bof(0x0005);
+    let mut gbounds = vec![0usize];
+    gbounds.push(g.len());
+    g.extend(xlsw::rec(xlsw::CODEPAGE, &1200u16.to_le_bytes()));
+    gbounds.push(g.len());
+    g.extend(xlsw::rec(xlsw::XF, &[0u8; 20]));
+    let mut patch_at = vec![];
+    for j in 0..k {
+        gbounds.push(g.len());
+        let mut d = vec![0u8; 6];
+        d.extend(xlsw::short_xl_unicode_string(&format!("S{j}"), Some(false), &mut rng));
+        patch_at.push(g.len() + 4);
+        g.extend(xlsw::rec(xlsw::BOUNDSHEET, &d));
+    }
+    g.extend(xlsw::rec(xlsw::EOF, &[]));
+    let glen = g.len();
+    let mut stream = g;
+    stream.extend(&sheet);
+    if boundary {
+        let total = k * sheet.len();
+        let t0 = (total.saturating_sub(65536) / 8).saturating_sub(glen + sheet.len()) as i64;
+        let t = (t0 + rng.below(3) as i64 - 1).max(0) as usize;
+        stream.extend(vec![0u8; t]);
+        rep.count("overlap.boundary");
+    } else if rng.chance(1, 4) {
+        stream.extend(vec![0u8; *rng.pick(&[1usize, 4, 100])]);
+    }
+    let mut offsets = vec![];
+    for j in 0..k {
+        let off = match if boundary { 0 } else { rng.below(20) } {
+            0 => glen,                                              // the real start
+            1 => *rng.pick(&gbounds),                               // inside the globals
+            2 => stream.len(),                                      // empty sheet
+            3 if k < 30 && rng.chance(1, 3) => stream.len() + 1 + rng.below(9) as usize, // beyond the stream: error
+            _ => glen + *rng.pick(&bounds),
+        };
+        stream[patch_at[j]..patch_at[j] + 4].copy_from_slice(&(off as u32).to_le_bytes());
+        offsets.push(off);
+    }
+    rep.case(input, true);
+    rep.count(&format!("overlap.k.{}", match k { 0..=9 => "1-9", 10..=99 => "10-99", _ => "100+" }));
+    let bytes = verif_harness::cfbw::write_cfb(&[("Workbook".to_string(), stream.clone())], &verif_harness::cfbw::CfbOpts::default(), &mut rng);
+    let clip = |text: String, n: usize| -> String {
+        if text.len() > 4000 {
+            format!("ok #{}:{n}", verif_harness::fnv64(text.as_bytes()))
+        } else {
+            format!("ok {text}")
+        }
+    };
+    let i = match guarded(|| match Xls::new(Cursor::new(bytes)) {
+        Err(e) => err_class(&e),
+        Ok(mut wb) => {
+            let mut parts = vec![];
+            for j in 0..k {
+                match wb.worksheet_range(&format!("S{j}")) {
+                    Ok(r) => parts.push(canon_range(&r)),
+                    Err(e) => return err_class(&e),
+                }
+            }
+            clip(parts.join("|"), k)
+        }
+    }) {
+        Ok(v) => v,
+        Err(m) => format!("panic {m}"),
+    };
+    let offs: Vec<String> = offsets.iter().map(|o| o.to_string()).collect();
+    let m = drv.ask(&format!("wb o 0 - {} {}", offs.join(","), hex(&stream)));
+    rep.count(&format!("overlap.outcome.{}", i.split([' ', '#']).next().unwrap_or("")));
+    if !same(&i, &m) {
+        rep.fail("impl_vs_model", "overlap", input, &i, &m, "");
+    }
+    // the oracle of this family: never a panic, and either every sheet or the documented error
+    if i.starts_with("panic") {
+        rep.fail("impl_vs_spec", "overlap-panic", input, &i, &m, "ranges or an error");
+    }
 }
 
 fn book_case(b: Book, drv: &mut Driver, rep: &mut Report, shrink_budget: &mut u32) {
@@ -1488,6 +1602,7 @@ fn main() {
          random container layout, read by Xls::new + worksheet_range, compared with Lean `dec` and with the bounding-box/value oracle. \
          B: one workbook per run (3 in thorough) with a shared string table of 65536 + k strings and LABELSST cells on both sides of the 16-bit boundary. \
          MULRK runs, consecutive RK and NUMBER records repeat numbers (same bytes) under XFs of different format classes and keep an XF over different numbers (adjacent and at distance 2). \
+         O: 12 (thorough 200) workbooks with 1..3000 BoundSheet8 records whose offsets point into one worksheet's records, the globals, the end of the stream or beyond it (overlapping substreams): impl vs the model's workbook-wide scan counter, outcome = all ranges or the overlap error, never a panic. \
          M: Rust-encoded substreams with physical oddities (STRING without FORMULA, CONTINUE, MERGECELLS, 1-cell MULRK, LABELSST beyond the table) \
          and one structural fault (impl vs model only). Non-trivial = a file with >= 2 cells, a record with an oracle, any K/M case; distinct by input text. \
          Generator restrictions: FORMULA token strings are always `PtgInt` (the token decoder is C14's); strings never start with a BOM-like unit.",
@@ -1501,6 +1616,9 @@ fn main() {
         }
         for j in 0..if args.thorough() { 3 } else { 1 } {
             run_input(&format!("B {}", args.seed.wrapping_add(j)), &mut drv, &mut rep, &mut shrink_budget);
+        }
+        for j in 0..args.count(12, 200) {
+            run_input(&format!("O {}", args.seed.wrapping_mul(1000).wrapping_add(j)), &mut drv, &mut rep, &mut shrink_budget);
         }
         #[cfg(feature = "hooks")]
         rk_sweeps(&args, &mut rep, &mut drv);
